@@ -962,7 +962,7 @@ func (c *Ctx) c6Mesh(nv int, special int) c6Mesh {
 		for i := range m.idx {
 			m.idx[i] = c.Rng.Intn(nv)
 		}
-		if ni > 0 && c.Rng.Intn(2) == 0 {
+		if ni > 0 && (nv > 1000 || c.Rng.Intn(2) == 0) {
 			m.idx[c.Rng.Intn(ni)] = nv - 1 // largest vertex id is referenced
 		}
 	}
@@ -1184,13 +1184,17 @@ func (c *Ctx) c6Scene(level int, big int) *c6Scene {
 	s := &c6Scene{}
 	xfDiffers := level >= 2 && c.Rng.Intn(2) == 0 // value-duplicate textures that differ only in their transform (class of the defect fixed by f524c9b)
 	nm := 1 + c.Rng.Intn(4)
+	noPayload := big == 0 && c.Rng.Intn(25) == 0 // only empty meshes: the document has no buffer, a GLB no BIN chunk
+	if noPayload {
+		c.Note("scene.no-payload")
+	}
 	special := 0
 	if c.Rng.Intn(12) == 0 {
 		special = 1
 	}
 	for i := 0; i < nm; i++ {
 		nv := []int{1, 2, 3, 3, 4, 5, 7, 12}[c.Rng.Intn(8)]
-		if c.Rng.Intn(15) == 0 {
+		if c.Rng.Intn(15) == 0 || noPayload {
 			nv = 0
 		}
 		if big > 0 && i == 0 {
@@ -1283,6 +1287,9 @@ func (c *Ctx) c6Scene(level int, big int) *c6Scene {
 		}
 		if len(s.mats) > 0 && c.Rng.Intn(3) > 0 {
 			md.mat = c.Rng.Intn(len(s.mats))
+			if c.Rng.Intn(3) == 0 {
+				md.mat = 0
+			}
 		}
 		if level >= 1 {
 			if c.Rng.Intn(3) == 0 {
@@ -1304,7 +1311,7 @@ func (c *Ctx) c6Scene(level int, big int) *c6Scene {
 		}
 		s.models = append(s.models, md)
 	}
-	if level >= 1 && c.Rng.Intn(5) == 0 {
+	if level >= 1 && (c.Rng.Intn(5) == 0 || noPayload && c.Rng.Intn(2) == 0) {
 		nl := 1 + c.Rng.Intn(2)
 		for k := 0; k < nl; k++ {
 			s.lights = append(s.lights, c.c6Vec(3))
@@ -1457,6 +1464,27 @@ func runC06(c *Ctx) {
 	empty := &c6Scene{}
 	c.c6Case(empty, true, "")
 	c.c6Case(empty, false, "")
+	// scenes without any binary payload: lights only, only empty meshes, both (GLB has no BIN chunk)
+	lightsOnly := &c6Scene{lights: [][]float64{{1, 2, 3}, {0, -1, 0.5}}}
+	c.c6Case(lightsOnly, true, "")
+	c.c6Case(lightsOnly, false, "")
+	emptyMesh := &c6Scene{meshes: []c6Mesh{{topo: 0}, {topo: 1, attrs: []c6Attr{{name: "Position", dim: 3, data: []float64{0, 0, 0}}}}},
+		models: []c6Model{{name: "e", mesh: 0, mat: -1}, {name: "p", mesh: 1, mat: -1, t: []float64{1, 0, 0}}}}
+	c.c6Case(emptyMesh, true, "")
+	emptyMesh.lights = [][]float64{{4, 5, 6}}
+	c.c6Case(emptyMesh, true, "")
+	c.Note("nobin.fixed")
+	// one mesh pointer shared by a model without material and models with the scene's first / second material
+	for _, order := range [][]int{{-1, 0}, {0, -1}, {-1, 0, 1, -1, 0}, {1, -1, 0}} {
+		s := c6Witness()
+		s.mats = []c6Mat{{name: "first", hasPbr: true, bct: -1, mrt: -1, normal: -1, occl: -1}, {name: "second", bct: -1, mrt: -1, normal: -1, occl: -1}}
+		s.models = nil
+		for i, m := range order {
+			s.models = append(s.models, c6Model{name: "m" + strconv.Itoa(i), mesh: 0, mat: m})
+		}
+		c.c6Case(s, len(order)%2 == 0, "")
+		c.Note("sharedmesh.nil-vs-first-material")
+	}
 	for k := 0; k < c.N; k++ {
 		level := 2
 		switch k % 5 {
@@ -1469,9 +1497,9 @@ func runC06(c *Ctx) {
 		c.c6Case(s, k%2 == 0, "")
 	}
 	// both sides of the uint16/uint32 threshold (thorough tier; one pair in the quick tier)
-	bigs := []int{65535, 65536}
+	bigs := []int{65535, 65536, 65538}
 	if c.Tier == "thorough" {
-		bigs = []int{65534, 65535, 65536, 65537, 70000}
+		bigs = []int{65534, 65535, 65536, 65537, 65538, 70000, 131075}
 	}
 	for i, nv := range bigs {
 		s := c.c6Scene(0, nv)
